@@ -113,9 +113,18 @@ def make_input(T, seed):
         return torch.from_numpy(g.random(size=(T["c"], T["l"], T["ph"], T["pw"]), dtype=np.float32))
     if k == "semseg":
         x = make_input(t_img(T["xkind"], 3, T["h"], T["w"]), seed)
-        # blocky mask with some ignore (-1) pixels so that category ratios are non-degenerate
-        seg = g.integers(0, T["ncls"], size=(T["h"], T["w"])).astype(np.int64)
-        seg[g.random(size=seg.shape) < 0.15] = -1
+        # mask styles: uniform noise over the classes / one dominating class with a noisy rectangle (drives the
+        # category-ratio retry loop of the random crop) / single class; always some ignore (-1) pixels
+        style = int(seed) % 3
+        if style == 0:
+            seg = g.integers(0, T["ncls"], size=(T["h"], T["w"])).astype(np.int64)
+        else:
+            seg = np.full((T["h"], T["w"]), int(g.integers(0, T["ncls"])), dtype=np.int64)
+            if style == 1:
+                a, b = sorted(g.integers(0, T["h"] + 1, size=2))
+                c, d = sorted(g.integers(0, T["w"] + 1, size=2))
+                seg[a:b, c:d] = g.integers(0, T["ncls"], size=(b - a, d - c))
+        seg[g.random(size=seg.shape) < 0.1] = -1
         return x, torch.from_numpy(seg)
     raise ValueError(k)
 
